@@ -502,7 +502,7 @@ const TRACE_INF: i64 = 1 << 30;
 fn mm_value(rng: &mut Xoshiro256PlusPlus, regime: usize) -> (f64, i64, bool) {
     let c = rng.random_range(0..100);
     if c < 6 {
-        return (f64::NAN, 0, true);
+        return (if c % 2 == 0 { f64::NAN } else { -f64::NAN }, 0, true);
     }
     if c < 8 {
         return (f64::INFINITY, TRACE_INF, false);
